@@ -6,7 +6,8 @@ zz_verif_c07_test.go (TestVerifC07) and the kinds model runner r_c07.ml; (L) gro
 through {sub topic="new"} under a small maxSubscriberCount (implementation only).  The
 property's laws are evaluated on the IMPLEMENTATION's traces; the models are compared on the
 projection C07 reads (ctrl codes + acs, want/given/deleted per user in store and cache,
-attached sessions)."""
+attached sessions with their background flag).  Attachment table under bans: g_ban / g_attach_monitor
+(laws no-session-attached-without-join, evicted-session-notified), theorems in Sys/TopicAclC07BanF.v."""
 import json
 import os
 import re
@@ -1013,7 +1014,8 @@ def run(ctx):
     ctx.coverage.update({
         "evaluations": len(gs) + len(ks), "distinct_nontrivial": nt,
         "rule": "group part: actor (owner/approver/admin/sharer/member/reader/banned/self-banned/pending transferee/stranger/restricted) x target x mode-grammar "
-                "matrix with ban / leave / come-back, sharer invites with explicit mode, approver self-raise, subscriber-limit overflow, plus the perm-profile random "
+                "matrix with ban / leave / come-back, sharer invites with explicit mode, approver self-raise, subscriber-limit overflow, ban histories with 0-3 sessions per user "
+                "of mixed kind (foreground / background) under bans by approvers, self-bans, {del sub}, {leave unsub}, come-backs, plus the perm-profile random "
                 "histories of topiclib (a share with single store faults / crashes); kinds part: 3-5 accounts with assorted default access (one may be root), "
                 "requests sub / set-sub / leave / unload addressed as usrX, me, fnd, sys, raw fnd and raw p2p names (own, foreign, third-party); "
                 "groups created by {sub new} under maxSubscriberCount 2-4 with more candidates than places; non-trivial = at least one 200 reply",
